@@ -52,3 +52,54 @@ fn parse_file(file: &mut SliceFile, ast: &mut Ast, diagnostics: &mut Diagnostics
     file.attributes = attributes;
     file.contents = definitions;
 }
+
+// =============================================================================
+// Hooks for the external verification harness (only with `--cfg slicec_verif`).
+// =============================================================================
+
+#[cfg(slicec_verif)]
+type VerifToken = Result<(String, crate::verif_hooks::Loc4), (String, crate::verif_hooks::Loc4)>;
+
+#[cfg(slicec_verif)]
+pub(crate) fn verif_lex_preprocessor(text: &str) -> Vec<VerifToken> {
+    preprocessor::lexer::Lexer::new(text)
+        .map(|r| match r {
+            Ok((s, t, e)) => Ok((format!("{t:?}"), (s.row, s.col, e.row, e.col))),
+            Err((s, t, e)) => Err((format!("{t:?}"), (s.row, s.col, e.row, e.col))),
+        })
+        .collect()
+}
+
+#[cfg(slicec_verif)]
+pub(crate) fn verif_lex_slice(text: &str) -> Vec<VerifToken> {
+    use crate::slice_file::Location;
+    let block = common::SourceBlock {
+        content: text,
+        start: Location::default(),
+        end: Location::default(), // Unused by the lexer.
+    };
+    slice::lexer::Lexer::from(std::iter::once(block))
+        .map(|r| match r {
+            Ok((s, t, e)) => Ok((format!("{t:?}"), (s.row, s.col, e.row, e.col))),
+            Err((s, t, e)) => Err((format!("{t:?}"), (s.row, s.col, e.row, e.col))),
+        })
+        .collect()
+}
+
+#[cfg(slicec_verif)]
+pub(crate) fn verif_lex_comment(lines: &[(String, crate::verif_hooks::Loc4)]) -> Vec<VerifToken> {
+    use crate::slice_file::{Location, Span};
+    let input: Vec<(&str, Span)> = lines
+        .iter()
+        .map(|(text, l)| {
+            let span = Span::new(Location { row: l.0, col: l.1 }, Location { row: l.2, col: l.3 }, "hook");
+            (text.as_str(), span)
+        })
+        .collect();
+    comments::lexer::Lexer::new(input)
+        .map(|r| match r {
+            Ok((s, t, e)) => Ok((format!("{t:?}"), (s.row, s.col, e.row, e.col))),
+            Err((s, t, e)) => Err((format!("{t:?}"), (s.row, s.col, e.row, e.col))),
+        })
+        .collect()
+}
